@@ -6,8 +6,8 @@ import numpy as np
 
 from . import c05 as base
 
-RULE = ("K on generated tiny scenes (3-6 cells per axis, periodic/PEC/PMC/PML faces, dipole/plane source and 2-3 "
-        "detectors with random on/off switches, binary64): (a) `custom_fdtd_forward(start, stop)` for ~20 (start, stop) "
+RULE = ("K on generated tiny scenes (3-6 cells per axis, periodic/PEC/PMC/PML faces, dipole/plane source, field + energy + "
+        "accumulating phasor detectors with random on/off switches, binary64): (a) `custom_fdtd_forward(start, stop)` for ~20 (start, stop) "
         "pairs per scene incl. start=stop, start>stop, stop>T (loop bound), traced and Python-int arguments, "
         "reset_container on/off: final step and the traced sequence of step indices are compared exactly with the model; "
         "(b) random histories 0=a_0<=a_1<=...<=a_n=T of consecutive partial runs (1-5 split points, repeated points "
@@ -15,11 +15,12 @@ RULE = ("K on generated tiny scenes (3-6 cells per axis, periodic/PEC/PMC/PML fa
         "at 1e-9 (the property itself, evaluated on the implementation); (c) random sequences of full / partial / split "
         "runs on ONE reused container (each full run must reproduce the reference) incl. starts from dirty containers and "
         "from the arrays returned by a previous run; (d) `ArrayContainer.reset` with all flag combinations on containers "
-        "with random, negative, inf and NaN entries (and a recording state): every output value is compared bit-for-bit "
-        "with the model's `x*0` / zeros_like (NaNs canonicalised), plus the predicate 'fields and finite detector entries "
-        "are zero, materials bit-identical, shapes kept, reset idempotent'. non-trivial = a history with >= 2 pieces, a "
-        "window hitting a bound, a dirty start, or a reset input with a non-finite / negative entry. The non-finite "
-        "detector entries that survive reset are recorded as an observation (excluded point of the theorem), not a violation.")
+        "with random, negative, +-inf and NaN entries (and a recording state): every output value is compared bit-for-bit "
+        "with the model's zeros, plus the predicate 'every field / detector / (flagged) recording entry is +0.0 bit-exactly "
+        "- a surviving NaN, inf or -0.0 is a violation -, materials bit-identical, shapes kept, reset idempotent'; the reuse "
+        "sequences of (c) include `spoil` (the NaN/inf container a diverged run leaves behind) followed by a full run that "
+        "must reproduce the reference. non-trivial = a history with >= 2 pieces, a window hitting a bound, a dirty / spoiled "
+        "start, or a reset input with a non-finite / negative entry.")
 
 
 class Scene:
@@ -151,29 +152,46 @@ def spoil(j, arr, seed, specials=True):
 
 
 def reset_fails(j, arr, rd=True, rr=False):
-    """the property's reset sentence on the implementation; returns (detail or None, number of surviving non-finite
-    detector entries)"""
+    """the property's reset sentence on the implementation: every time-dependent entry is +0.0 bit-exactly (a surviving
+    NaN / inf / -0.0 is a failure), materials bit-identical, shapes kept, idempotent.  Returns a detail string or None."""
     r = arr.reset(reset_detector_states=rd, reset_recording_state=rr)
-    f0, d0, _, m0 = flat_container(j, arr)
-    f1, d1, _, m1 = flat_container(j, r)
-    if f1.shape != f0.shape or d1.shape != d0.shape:
-        return "reset changed array shapes", 0
-    if np.any(f1 != 0) or np.any(np.isnan(f1)):
-        return f"reset left {int(np.sum((f1 != 0) | np.isnan(f1)))} non-zero field entries", 0
+    f0, d0, r0, m0 = flat_container(j, arr)
+    f1, d1, r1, m1 = flat_container(j, r)
+    if f1.shape != f0.shape or d1.shape != d0.shape or ((r0 is None) != (r1 is None)) or (r0 is not None and r0.shape != r1.shape):
+        return "reset changed array shapes"
+
+    def not_plus_zero(x):
+        b = np.asarray(x, dtype=np.float64).view(np.uint64)
+        bad = np.nonzero(b != 0)[0]
+        if bad.size == 0:
+            return None
+        v = np.asarray(x, dtype=np.float64)[bad]
+        return (f"{bad.size} entries are not +0.0 ({int(np.sum(np.isnan(v)))} NaN, {int(np.sum(np.isinf(v)))} inf, "
+                f"{int(np.sum((v == 0) & np.signbit(v)))} -0.0, {int(np.sum(np.isfinite(v) & (v != 0)))} non-zero)")
+
+    d = not_plus_zero(f1)
+    if d:
+        return "after reset the field arrays are not zeroed: " + d
     if canon_bits(m1) != canon_bits(m0):
-        return "reset changed material arrays", 0
-    surv = 0
+        return "reset changed material arrays"
     if rd:
-        fin = np.isfinite(d0)
-        if np.any(d1[fin] != 0):
-            return f"reset left {int(np.sum(d1[fin] != 0))} finite detector entries non-zero", 0
-        surv = int(np.sum(~np.isfinite(d1)))
+        d = not_plus_zero(d1)
+        if d:
+            return ("after reset the detector states are not zeroed: " + d +
+                    f" (input held {int(np.sum(~np.isfinite(d0)))} non-finite and {int(np.sum(d0 < 0))} negative entries)")
     elif canon_bits(d1) != canon_bits(d0):
-        return "reset(reset_detector_states=False) changed detector states", 0
+        return "reset(reset_detector_states=False) changed detector states"
+    if r0 is not None:
+        if rr:
+            d = not_plus_zero(r1)
+            if d:
+                return "after reset(reset_recording_state=True) the recording state is not zeroed: " + d
+        elif canon_bits(r1) != canon_bits(r0):
+            return "reset changed the recording state although reset_recording_state=False"
     r2 = r.reset(reset_detector_states=rd, reset_recording_state=rr)
     if any(canon_bits(x) != canon_bits(y) for x, y in zip(flat_container(j, r2)[:2], (f1, d1))):
-        return "reset is not idempotent", surv
-    return None, surv
+        return "reset is not idempotent"
+    return None
 
 
 # ------------------------------------------------------------------------------------ property oracle
@@ -216,6 +234,9 @@ def reuse_fails(S, ops, seed, ref=None, tol=1e-9):
         elif op == "dirty":
             st = (None, base.dirty(j, arr, rng.randint(1, 10 ** 6)))
             full = False
+        elif op == "spoil":                         # the container a diverged run leaves behind: NaN / inf / negative entries
+            st = (None, spoil(j, arr, rng.randint(1, 10 ** 6)))
+            full = False
         else:
             raise ValueError(op)
         arr = st[1]
@@ -234,7 +255,7 @@ def base_rng(seed):
     return Rng(int(seed))
 
 
-OPS = ["run", "cf_reset", "hist", "partial", "dirty", "run", "cf_reset_py"]
+OPS = ["run", "cf_reset", "hist", "partial", "dirty", "spoil", "run", "cf_reset_py"]
 
 
 # ------------------------------------------------------------------------------------------- K
@@ -295,7 +316,7 @@ def k_scene(ctx, sc, idx):
     for i in range(ctx.scale(2, 6)):
         ops = [ctx.rng.choice(OPS) for _ in range(ctx.rng.randint(3, 5))] + ["run"]
         if i == 0:
-            ops = ["run", "run", "partial", "cf_reset", "dirty", "run"]
+            ops = ["run", "spoil", "run", "partial", "cf_reset", "dirty", "run"]
         seed = ctx.rng.randint(1, 10 ** 6)
         case = {"kind": "reuse", "scene": sc, "ops": ops, "seed": seed}
         ctx.case(nontrivial=("r", idx, tuple(ops), seed), op="reuse", n_ops=len(ops), **kinds)
@@ -309,7 +330,6 @@ def k_reset(ctx, sc, grad, idx):
     """(d) reset: model vs implementation bit for bit, plus the predicate"""
     j = base.J()
     o, a, cfg = base.build(sc, grad)
-    observed = 0
     for i, (rd, rr, specials) in enumerate([(1, 0, True), (0, 0, True), (1, 1, True), (1, 0, False), (0, 1, False)]):
         seed = ctx.rng.randint(1, 10 ** 6)
         arr = spoil(j, a, seed, specials)
@@ -328,14 +348,9 @@ def k_reset(ctx, sc, grad, idx):
                  recording="yes" if r0 is not None else "no", specials=specials)
         ctx.expect_equal("reset", case, impl, rep)
         ctx.impl_property_evals += 1
-        d, surv = reset_fails(j, arr, bool(rd), bool(rr))
-        observed += surv
+        d = reset_fails(j, arr, bool(rd), bool(rr))
         if d:
             ctx.violation(case, d)
-    obs = ctx.extra.setdefault("observations", {})
-    obs["nonfinite_detector_entries_surviving_reset"] = obs.get("nonfinite_detector_entries_surviving_reset", 0) + observed
-    obs["note"] = ("ArrayContainer.reset zeroes detector states with v*0: NaN/inf entries stay NaN (fields use zeros_like and are "
-                   "zeroed). Excluded point of C06_reset_zero (finite scalars); modelled exactly by C06_reset_ext.")
 
 
 def run(ctx):
@@ -345,6 +360,8 @@ def run(ctx):
         sc = base.gen_scene(ctx.rng.fork(), ctx.scale(10, 20), i + 1 + ctx.seed)
         if sc["bound"] == "pml" and not ctx.thorough:
             sc["dets"] = sc["dets"][:2]
+        # an accumulating detector: its record after a rerun depends on what reset left in the state
+        sc["dets"] = sc["dets"][:2] + [{"kind": "phasor", "switch": base.gen_switch(ctx.rng, sc["T"]), "reduce": ctx.rng.chance(0.5)}]
         k_scene(ctx, sc, i)
     # reset: one scene without and one with a recording state (reversible gradient config + PML)
     sc0 = base.gen_scene(ctx.rng.fork(), 8, 0)
@@ -366,7 +383,8 @@ def search(ctx, hints):
     for T in (2, 3, 5, 8):
         for bound in ("periodic", "pec"):
             sc = {"shape": [3, 3, 4], "T": T, "bound": bound, "src": "dipole", "pol": 2, "src_switch": None,
-                  "dets": [{"kind": "field", "switch": None}, {"kind": "energy", "switch": {"interval": 2}}],
+                  "dets": [{"kind": "field", "switch": None}, {"kind": "energy", "switch": {"interval": 2}},
+                           {"kind": "phasor", "switch": None}],
                   "spp": 4.0, "eps": None}
             S = Scene(sc)
             ref = snap(S.partial(S.a, 0, T, reset=True)[0])
@@ -378,15 +396,15 @@ def search(ctx, hints):
                     if d:
                         ctx.violation({"kind": "history", "scene": sc, "pts": pts, "start": start}, d)
                         return
-            for ops in (["run", "run"], ["dirty", "run"], ["partial", "run"], ["partial", "cf_reset"], ["run", "cf_reset_py"],
+            for ops in (["run", "run"], ["dirty", "run"], ["spoil", "run"], ["spoil", "cf_reset"], ["partial", "run"], ["partial", "cf_reset"], ["run", "cf_reset_py"],
                         ["dirty", "hist"]):
                 ctx.impl_property_evals += 1
                 d = reuse_fails(S, ops, 5)
                 if d:
                     ctx.violation({"kind": "reuse", "scene": sc, "ops": ops, "seed": 5}, d)
                     return
-            for (rd, rr) in ((1, 0), (0, 0), (1, 1)):
-                case = {"kind": "reset", "scene": sc, "grad": {"method": "none"}, "seed": 3, "rd": rd, "rr": rr, "specials": False}
+            for (rd, rr, specials) in ((1, 0, False), (1, 0, True), (0, 0, True), (1, 1, True)):
+                case = {"kind": "reset", "scene": sc, "grad": {"method": "none"}, "seed": 3, "rd": rd, "rr": rr, "specials": specials}
                 ctx.impl_property_evals += 1
                 d = replay(ctx, case)
                 if d:
@@ -411,5 +429,5 @@ def replay(ctx, inp):
         j = base.J()
         o, a, cfg = base.build(inp["scene"], inp.get("grad"))
         arr = spoil(j, a, inp["seed"], inp.get("specials", True))
-        return reset_fails(j, arr, bool(inp["rd"]), bool(inp["rr"]))[0]
+        return reset_fails(j, arr, bool(inp["rd"]), bool(inp["rr"]))
     return None
